@@ -106,6 +106,12 @@ static const char *const T_C03[] = {
 	"slow; S0 C1>0 C2>0 | a1 a1 | a2 s2",
 	"slow; S0 C1>0 C2>1 | a2 a2 s2 | a1 b1",
 	"slow; W0 C1>0 | a1 a1 | a1 w0",
+	// siblings under one serial target, a contended sync on one sibling while the other sibling's item holds the target
+	"slow; S0 S1>0 S2>0 | a1 s1 | a2",
+	"slow; S0 S1>0 S2>0 | a1 s1 | s2",
+	"slow; S0 S1>0 S2>0 | a1 B1 | a2 a2",
+	"slow; S0 S1>0 S2>0 | a1 w1 | a2",
+	"slow; S0 S1>0 S2>0 | s1 | s1 | s2",
 	0
 };
 QP_HARNESS(h_q03, "q03", "C03", T_C03, 0);
